@@ -473,7 +473,10 @@ class Fn:
                 recv, rt = self.pure(n.func.value)
                 if n.func.attr == "upper" and rt == "ostr":
                     return "(o_upper %s)" % recv, "ostr"
-                if n.func.attr == "isdigit" and rt == "ostr":
+                if n.func.attr == "isdecimal" and rt == "ostr":
+                    # str.isdecimal(): every character a decimal digit, so int() accepts the token (repair
+                    # a4724307; the former str.isdigit() also accepted characters int() rejects and is no
+                    # longer translated: a return to it fails closed).  On the model's tokens: is_digit_str.
                     return "(o_isdigit %s)" % recv, "bool"
                 if n.func.attr == "lower" and rt == "ostr":
                     return "(o_lower %s)" % recv, "ostr"
